@@ -295,6 +295,7 @@ def _mask_selection(expr: ast.AST, flag: str):
 
 def _r3(ck: Checker, prog: Program):
     _PROG[0] = prog
+    ck.guard(_one_log_base, ck, prog)
     # ---- individual curves
     f = prog.func("postprocessing._plot_individual_hvsr_curves")
     _check_masked_plot(ck, f, flag="valid", mask="valid_window_boolean_mask",
@@ -535,6 +536,28 @@ def _check_masked_plot(ck: Checker, f, flag: str, mask: str, what: str, rows, x:
         ck.violation("C20.R3", f.qualname, key, "; ".join(problems), loc=f.loc(p))
     else:
         ck.ok("C20.R3", f.qualname, key, detail=f"per member `{H}`: rows {list(rows)} selected by {H}.{mask} / its complement")
+
+
+def _one_log_base(ck: Checker, prog: Program):
+    """Within one drawing function every coordinate that is put on a logarithmic axis goes through the same logarithm: markers drawn at
+    np.log(f) on a surface laid out in np.log10(f) do not sit at the object's frequencies."""
+    n = 0
+    for f in prog.funcs.values():
+        if f.module.name != "postprocessing" or f.kind == "lambda":
+            continue
+        logs = [c for c in own_nodes(f.node) if isinstance(c, ast.Call) and call_name(c) in ("log", "log10", "log2", "log1p")]
+        if not logs:
+            continue
+        n += 1
+        bases = sorted({call_name(c) for c in logs})
+        if len(bases) == 1:
+            ck.ok("C20.R3", f.qualname, f"one logarithm ({bases[0]}) for every log-scaled coordinate", nontrivial=False)
+        else:
+            odd = min(bases, key=lambda b: sum(1 for c in logs if call_name(c) == b))
+            c0 = [c for c in logs if call_name(c) == odd][0]
+            ck.violation("C20.R3", f.qualname, "logarithm base", f"`{norm_key(c0, 70)}` uses {odd} while the rest of the drawing uses {[b for b in bases if b != odd][0]}: "
+                         f"what is drawn there does not sit at the object's values on the axis", loc=f.loc(c0))
+    ck.floor("C20.R3", n, 2, "drawing functions with log-scaled coordinates")
 
 
 def _only_skips_empty(test: ast.AST) -> Optional[bool]:
